@@ -26,7 +26,7 @@ type C20Case struct {
 }
 
 var rootShapes = []string{"dup-ID", "dup-Destination", "dup-Version", "dup-InResponseTo", "x:ID-before", "x:ID-after", "x:Destination-before", "x:InResponseTo-after",
-	"issuer-twice", "issuer-twice-first-evil", "issuer-comment", "issuer-cdata", "issuer-child", "issuer-child-middle", "issuer-pi-middle", "issuer-pi-leading", "issuer-other-ns-first", "issuer-nested-deeper", "shadow-prefix", "status-before-issuer", "empty-attrs", "enc-issuer-after", "enc-issuer-first", "enc-status-after", "enc-root-attrs"}
+	"issuer-twice", "issuer-twice-first-evil", "issuer-comment", "issuer-cdata", "issuer-child", "issuer-child-middle", "issuer-pi-middle", "issuer-pi-leading", "issuer-other-ns-first", "issuer-nested-deeper", "shadow-prefix", "status-before-issuer", "empty-attrs", "no-ID", "empty-ID", "no-InResponseTo", "empty-InResponseTo", "no-Destination", "empty-Destination", "no-IssueInstant", "no-issuer", "enc-issuer-after", "enc-issuer-first", "enc-status-after", "enc-root-attrs"}
 
 var prologs = []string{"", "", `<?xml version="1.0" encoding="UTF-8"?>`, `<?xml version="1.0" encoding="utf-8"?>`, `<?xml version="1.0" encoding="US-ASCII"?>`, `<?xml version="1.0" encoding="ISO-8859-1"?>`,
 	`<?xml version="1.0" encoding="UTF-16"?>`, "\xEF\xBB\xBF", "\xEF\xBB\xBF" + `<?xml version="1.0"?>`, `<!DOCTYPE x [<!ENTITY e "v">]>`, "<!-- c -->\n", `<?pi x?>`, "\n \t", evilSecondRoot("Response"), evilSecondRoot("LogoutResponse")}
@@ -167,6 +167,18 @@ func applyRootShape(root *etree.Element, shape string, evil string) {
 		}
 	case "empty-attrs":
 		post("Consent", "")
+	case "no-ID", "no-InResponseTo", "no-Destination", "no-IssueInstant":
+		// header attributes that are absent (the root is outside every signature here): whatever full validation
+		// makes of that, the pre-decode reports the same
+		root.RemoveAttr(strings.TrimPrefix(shape, "no-"))
+	case "empty-ID", "empty-InResponseTo", "empty-Destination":
+		k := strings.TrimPrefix(shape, "empty-")
+		root.RemoveAttr(k)
+		post(k, "")
+	case "no-issuer":
+		for _, is := range issuers() {
+			root.RemoveChild(is)
+		}
 	case "enc-issuer-after", "enc-issuer-first", "enc-status-after", "enc-root-attrs":
 		// an EncryptedAssertion (anyone can encrypt to the SP's certificate) whose PLAINTEXT is not an assertion
 		// but another Issuer / Status / a whole second Response: what decryption splices in must not change which
